@@ -250,10 +250,9 @@ Definition acceptance_wait (cfg : config) (c : cand) : option Z :=
   else None.
 (* controllingSelector.isNominatable *)
 Definition is_nominatable (cfg : config) (s : state) (c : cand) : bool :=
-  match acceptance_wait cfg c with
-  | Some w => w <=? since cfg s (s_sel_start s)
-  | None => false
-  end.
+  (* the GENERATED function (Gen/Lifecycle.v, from controllingSelector.isNominatable) *)
+  isNominatable (c_typ c) (since cfg s (s_sel_start s))
+                (cf_wait_host cfg) (cf_wait_srflx cfg) (cf_wait_prflx cfg) (cf_wait_relay cfg).
 
 (* Agent.setSelector (selector.Start) *)
 Definition set_selector : M :=
